@@ -97,6 +97,7 @@ class Expression(Node):
             '*': operator.mul,
             '/': operator.truediv,
             '=': operator.eq,
+            '!=': operator.ne,
             '>': operator.gt,
             '<': operator.lt,
             '>=': operator.ge,
